@@ -91,8 +91,9 @@ import pygaps, pygaps.parsing as pgp, pygaps.characterisation as pgc
 pygaps.logger.disabled = True
 iso = pgp.isotherm_from_json(os.path.join(os.environ.get('PGV_REPO', '/repo'), 'docs/examples/data/characterisation/MCM-41 N2 77.355.json'))
 out = []
-for branch, geom in json.loads(sys.argv[1]):
-    r = pgc.psd_mesoporous(iso, psd_model=sys.argv[2], pore_geometry=geom, branch=branch, thickness_model='zero thickness')
+for branch, geom, *men in json.loads(sys.argv[1]):
+    r = pgc.psd_mesoporous(iso, psd_model=sys.argv[2], pore_geometry=geom, branch=branch, thickness_model='zero thickness',
+                           **({'meniscus_geometry': men[0]} if men else {}))
     out.append([float(x) for x in r['pore_widths'][:5]])
 print(json.dumps(out))
 '''
@@ -102,4 +103,13 @@ print(json.dumps(out))
     both = run([spec['first'], spec['second']])
     alone = run([spec['second']])
     same = numpy.allclose(both[1], alone[0], rtol=1e-12)
+    if same and len(spec['second']) > 2:
+        # an explicitly named meniscus: with a zero-thickness layer the widths scale with the Kelvin radius, 1/f of the geometry
+        f = {'cylindrical': 2.0, 'hemispherical': 1.0, 'hemicylindrical': 0.5}
+        other = [g for g in f if g != spec['second'][2]][0]
+        ref = run([list(spec['second'][:2]) + [other]])
+        ratio = f[other] / f[spec['second'][2]]
+        ok = numpy.allclose(numpy.asarray(alone[0]), numpy.asarray(ref[0]) * ratio, rtol=1e-9)
+        return {'confirmed': not ok, 'observed': {f"widths with meniscus {spec['second'][2]}": alone[0], f"widths with meniscus {other}": ref[0]},
+                'expected': f"ratio {ratio} (Kelvin radius ~ 1/f, f = 2, 1, 1/2 for cylindrical, hemispherical, hemicylindrical)"}
     return {'confirmed': not same, 'observed': {'second_after_first': both[1], 'second_alone': alone[0]}, 'expected': 'identical pore widths'}
